@@ -14,6 +14,11 @@ package discov
 //   kaclose <p>…           the keep-alive channel of the lease closes: revoke, then doKeepAlive
 //   rl                     compaction: the watch loop reloads (Get returns the lease store)
 //   join                   a second subscriber joins the watch
+//   expire                 etcd expires the leases nobody keeps alive (keys left behind by failed calls)
+// Fault injection: a last token `!<kind>:<n>` (one publisher per such op) makes the next n etcd calls of the kind fail:
+//   pub … !grant:1 | !put:1 | !ka:1       KeepAlive() returns the error (observed `err=1`); after `ka` the key is in etcd
+//   resume <p> / kaclose <p> !grant:n | !put:n | !ka:n    the first n attempts of doKeepAlive fail, the next succeeds
+//   pause <p> / stop <p> !revoke:1        the revocation fails: the key stays until its lease expires
 // Observation:
 //   store=<key:value:lease,…> (our service) xstore=<…> (the sibling) leases=<p:lease:fullKeyId,…>
 //   and, once subscribed, the subscriber harness' observation (log= vals= map= values= notified= last= [late= lmap=])
@@ -75,6 +80,26 @@ func c13PubGen(r *verifh.Rng) []verifh.Section {
 			return out
 		}
 		slow := 0 // operations that wait for the publisher's one-second ticker
+		faulty := i%verifh.Scale(4, 6) == 1 // sections with failing etcd calls (each failed attempt of doKeepAlive costs one real second)
+		fault := func(kinds ...string) string {
+			if !faulty || !r.Chance(1, 2) {
+				return ""
+			}
+			n := 1
+			if kinds[0] != "revoke" && verifh.Thorough() && r.Chance(1, 4) {
+				n = 2
+			}
+			return fmt.Sprintf(" !%s:%d", kinds[r.Intn(len(kinds))], n)
+		}
+		one := func(ps []string) []string { return ps[:1] }
+		// a failed attempt of doKeepAlive costs one real second: in the quick tier only the forced tail below has them
+		slowFault := func() string {
+			if !verifh.Thorough() {
+				return ""
+			}
+			return fault("grant", "put", "ka")
+		}
+		refaulted := false
 		joined := false
 		nops := r.Range(4, verifh.Scale(9, 14))
 		for j := 0; j < nops; j++ {
@@ -100,21 +125,42 @@ func c13PubGen(r *verifh.Rng) []verifh.Section {
 					kind = "pubx"
 				}
 				pubs[p] = &pst{state: "run", x: kind == "pubx"}
-				ops = append(ops, fmt.Sprintf("%s %d %d %d", kind, p, id, r.Intn(nv)))
+				f := ""
+				if kind == "pub" {
+					if f = fault([]string{"grant", "put", "ka"}[(i/4+len(pubs))%3]); f != "" {
+						f = f[:len(f)-1] + "1" // KeepAlive() is one attempt: exactly one call fails
+						pubs[p].state = "failed" // KeepAlive returned an error: no goroutine serves Pause / Resume
+					}
+				}
+				ops = append(ops, fmt.Sprintf("%s %d %d %d%s", kind, p, id, r.Intn(nv), f))
 			case x < 55:
 				if ps := in("run", true); ps != nil {
+					f := ""
+					if !pubs[verifh.Atoi(ps[0])].x {
+						if f = fault("revoke"); f != "" {
+							ps = one(ps)
+						}
+					}
 					for _, p := range ps {
 						pubs[verifh.Atoi(p)].state = "paused"
 					}
-					ops = append(ops, "pause "+strings.Join(ps, " "))
+					ops = append(ops, "pause "+strings.Join(ps, " ")+f)
 				}
 			case x < 70:
 				if ps := in("paused", true); ps != nil && slow < 2 {
 					slow++
+					f := ""
+					if !pubs[verifh.Atoi(ps[0])].x {
+						if f = slowFault(); f != "" {
+							ps = one(ps)
+							slow++
+							refaulted = true
+						}
+					}
 					for _, p := range ps {
 						pubs[verifh.Atoi(p)].state = "run"
 					}
-					ops = append(ops, "resume "+strings.Join(ps, " "))
+					ops = append(ops, "resume "+strings.Join(ps, " ")+f)
 				}
 			case x < 80:
 				if ps := in(r.PickS("run", "run", "paused"), false); ps != nil {
@@ -124,14 +170,24 @@ func c13PubGen(r *verifh.Rng) []verifh.Section {
 			case x < 88:
 				if ps := in("run", true); ps != nil && slow < 2 {
 					slow++
-					ops = append(ops, "kaclose "+strings.Join(ps, " "))
+					f := ""
+					if !pubs[verifh.Atoi(ps[0])].x {
+						if f = slowFault(); f != "" {
+							ps = one(ps)
+							slow++
+							refaulted = true
+						}
+					}
+					ops = append(ops, "kaclose "+strings.Join(ps, " ")+f)
 				}
 			case x < 94:
 				if subscribed {
 					ops = append(ops, "rl")
 				}
 			default:
-				if subscribed && !joined {
+				if faulty && r.Chance(1, 2) {
+					ops = append(ops, "expire")
+				} else if subscribed && !joined {
 					joined = true
 					ops = append(ops, "join")
 				}
@@ -139,6 +195,32 @@ func c13PubGen(r *verifh.Rng) []verifh.Section {
 		}
 		if !subscribed {
 			ops = append(ops, "sub")
+		}
+		if faulty {
+			if !refaulted {
+				// every faulty section re-registers once with failing calls: after a lost keep-alive stream, or after Pause / Resume
+				var ids []int
+				for p, st := range pubs {
+					if st.state == "run" && !st.x {
+						ids = append(ids, p)
+					}
+				}
+				sort.Ints(ids)
+				if len(ids) == 0 {
+					p := len(pubs) + 1
+					pubs[p] = &pst{state: "run"}
+					ops = append(ops, fmt.Sprintf("pub %d 0 %d", p, r.Intn(nv)))
+					ids = []int{p}
+				}
+				p := ids[r.Intn(len(ids))]
+				f := fmt.Sprintf(" !%s:1", []string{"grant", "put", "ka"}[(i/4)%3]) // every kind in every run
+				if r.Chance(1, 2) {
+					ops = append(ops, fmt.Sprintf("kaclose %d%s", p, f))
+				} else {
+					ops = append(ops, fmt.Sprintf("pause %d", p), fmt.Sprintf("resume %d%s", p, f))
+				}
+			}
+			ops = append(ops, "expire")
 		}
 		secs = append(secs, verifh.Section{Cfg: fmt.Sprintf("h=pub excl=%d", b2i(excl)), Ops: ops})
 	}
@@ -164,7 +246,14 @@ func TestVerifC13Pub(t *testing.T) {
 			}
 			sort.Ints(ids)
 			for _, p := range ids {
-				ls = append(ls, fmt.Sprintf("%d:%d:%s", p, int64(pubs[p].lease)-7587870000, VerifKeyID(pubs[p].fullKey)))
+				lease, fk := int64(pubs[p].lease)-7587870000, VerifKeyID(pubs[p].fullKey)
+				if pubs[p].lease == 0 {
+					lease = 0 // clientv3.NoLease (a failed Grant)
+				}
+				if pubs[p].fullKey == "" {
+					fk = "0" // never registered
+				}
+				ls = append(ls, fmt.Sprintf("%d:%d:%s", p, lease, fk))
 			}
 			out := fmt.Sprintf("store=%s xstore=%s leases=%s", ses.Etcd.StoreDump(ses.Key+"/"), ses.Etcd.StoreDump(ses.Key+"x/"), strings.Join(ls, ","))
 			if timeout {
@@ -183,9 +272,49 @@ func TestVerifC13Pub(t *testing.T) {
 			n1, n2, last = 0, 0, "none"
 			return out
 		}
+		dead := false
 		step := func(op []string) string {
+			if dead {
+				// a publisher gave up: its goroutine is gone, Pause / Resume would block for ever
+				return "dead=1"
+			}
 			_, puts, revokes := ses.Etcd.Counts()
 			ok := true
+			// fault injection: `!<kind>:<n>` as the last token
+			fkind, fn := "", 0
+			if last := op[len(op)-1]; strings.HasPrefix(last, "!") {
+				i := strings.IndexByte(last, ':')
+				if i < 0 {
+					return "bad-op"
+				}
+				fkind, fn = last[1:i], verifh.Atoi(last[i+1:])
+				op = op[:len(op)-1]
+				if len(op) != 2 && op[0] != "pub" {
+					return "bad-op" // one publisher per faulty operation
+				}
+				switch {
+				case fkind == "revoke" && (op[0] == "pause" || op[0] == "stop"):
+				case fkind != "revoke" && (op[0] == "pub" || op[0] == "resume" || op[0] == "kaclose"):
+				default:
+					return "bad-op"
+				}
+				if op[0] != "pub" && pubs[verifh.Atoi(op[1])] == nil {
+					return "bad-op"
+				}
+				if (op[0] == "pub" || fkind == "revoke") && fn != 1 {
+					return "bad-op" // one attempt / one revocation: a second armed failure would hit a later operation
+				}
+				ses.Etcd.ArmFault(fkind, fn)
+			}
+			extra := ""
+			opWait := wait
+			if fn > 0 && wait > time.Second {
+				opWait = time.Duration(fn+1)*time.Second + 2*time.Second
+			}
+			kaPuts := 0
+			if fkind == "ka" {
+				kaPuts = fn // an attempt whose KeepAlive fails has put its key already
+			}
 			switch op[0] {
 			case "sub":
 				if sub != nil {
@@ -223,32 +352,53 @@ func TestVerifC13Pub(t *testing.T) {
 				pubs[verifh.Atoi(op[1])] = p
 				running[verifh.Atoi(op[1])] = true
 				if err := p.KeepAlive(); err != nil {
-					panic(err)
+					if fn == 0 {
+						dead = true // no keep-alive goroutine although nothing failed: Pause / Resume would block for ever
+					}
+					running[verifh.Atoi(op[1])] = false
+					extra = " err=1"
 				}
 			case "pause":
 				for _, t := range op[1:] {
 					pubs[verifh.Atoi(t)].Pause()
 					running[verifh.Atoi(t)] = false
 				}
-				ok = ses.Etcd.AwaitCounts(puts, revokes+len(op)-1, wait)
+				if fkind == "revoke" {
+					ok = ses.Etcd.AwaitCounts(puts, revokes, opWait)
+				} else {
+					ok = ses.Etcd.AwaitCounts(puts, revokes+len(op)-1, wait)
+				}
 			case "resume":
 				for _, t := range op[1:] {
 					pubs[verifh.Atoi(t)].Resume()
 					running[verifh.Atoi(t)] = true
 				}
-				ok = ses.Etcd.AwaitCounts(puts+len(op)-1, revokes, wait)
+				ok = ses.Etcd.AwaitCounts(puts+len(op)-1+kaPuts, revokes, opWait)
 			case "stop":
 				p := pubs[verifh.Atoi(op[1])]
 				p.Stop()
 				if running[verifh.Atoi(op[1])] {
-					ok = ses.Etcd.AwaitCounts(puts, revokes+1, wait)
+					if fkind == "revoke" {
+						ok = ses.Etcd.AwaitCounts(puts, revokes, opWait)
+					} else {
+						ok = ses.Etcd.AwaitCounts(puts, revokes+1, wait)
+					}
 				}
 				running[verifh.Atoi(op[1])] = false
 			case "kaclose":
 				for _, t := range op[1:] {
 					ses.Etcd.CloseKeepAlive(pubs[verifh.Atoi(t)].lease)
 				}
-				ok = ses.Etcd.AwaitCounts(puts+len(op)-1, revokes+len(op)-1, wait)
+				ok = ses.Etcd.AwaitCounts(puts+len(op)-1+kaPuts, revokes+len(op)-1, opWait)
+			case "expire":
+				// the leases of the publishers whose keep-alive goroutine runs are renewed, every other lease expires
+				alive := map[clientv3.LeaseID]bool{}
+				for id, p := range pubs {
+					if running[id] {
+						alive[p.lease] = true
+					}
+				}
+				ses.Etcd.ExpireOrphans(alive)
 			case "rl":
 				if sub == nil {
 					return "bad-op"
@@ -265,12 +415,17 @@ func TestVerifC13Pub(t *testing.T) {
 			}
 			if !ok {
 				wait = 200 * time.Millisecond
+				dead = true
+				if fn > 0 && ses.Etcd.PendingFaults() == 0 {
+					// every armed failure has happened and no later attempt followed
+					extra += " gaveup=1"
+				}
 			}
 			if ok {
 				// a registration that comes late (a publisher that registers once more than it should) would still be running
 				time.Sleep(time.Millisecond)
 			}
-			return observe(!ok)
+			return observe(!ok) + extra
 		}
 		return step, func() {
 			_, puts, revokes := ses.Etcd.Counts()
@@ -281,7 +436,11 @@ func TestVerifC13Pub(t *testing.T) {
 				}
 			}
 			// the publishers' goroutines revoke on Stop: let them finish before the next session resets the store
-			ses.Etcd.AwaitCounts(puts, revokes, 2*time.Second)
+			if dead {
+				ses.Etcd.AwaitCounts(puts, revokes, 300*time.Millisecond)
+			} else {
+				ses.Etcd.AwaitCounts(puts, revokes, 2*time.Second)
+			}
 			if sub != nil {
 				ses.Close()
 				sub.Close()
